@@ -8,20 +8,60 @@ Theorem same_iterates : forall (F : Type) (rO rI : F) (radd rmul rsub : F -> F -
   forall (eqb : F -> F -> bool), (forall x y, eqb x y = true <-> x = y) ->
   forall (R : nat) (w : list F) (fs : list (matrix (F := F))), length w = R ->
   (forall row, In row (last fs []) -> length row = R) ->
-  forall upd stop normf normalize a n fixed budget tol,
-  let start := fun wf : list F * list (matrix (F := F)) => mkst (fst wf) (snd wf) in
-  run upd stop normf normalize a n fixed budget tol (start (init_cp rI rmul eqb R (Some (ones rI R)) (absorb_last rmul w fs)))
-  = run upd stop normf normalize a n fixed budget tol (start (init_cp rI rmul eqb R (Some w) fs)).
+  forall (X : Type) (x : X) upd stop normf normalize pre pre_on post ls_on ls_accept lsf lsw lsx a n fixed budget tol,
+  let start := fun wf : list F * list (matrix (F := F)) => mkst (fst wf) (snd wf) x in
+  run upd stop normf normalize pre pre_on post ls_on ls_accept lsf lsw lsx a n fixed budget tol
+      (start (init_cp rI rmul eqb R (Some (ones rI R)) (absorb_last rmul w fs)))
+  = run upd stop normf normalize pre pre_on post ls_on ls_accept lsf lsw lsx a n fixed budget tol
+      (start (init_cp rI rmul eqb R (Some w) fs)).
 Proof.
-  intros F rO rI radd rmul rsub ropp Rth eqb Heq R w fs Hl Hr upd stop normf normalize a n fixed budget tol start.
+  intros F rO rI radd rmul rsub ropp Rth eqb Heq R w fs Hl Hr X x upd stop normf normalize pre pre_on post ls_on ls_accept lsf lsw lsx a n fixed budget tol start.
   rewrite (init_cp_absorbed_same F rO rI radd rmul rsub ropp Rth eqb Heq R w fs Hl Hr). reflexivity.
 Qed.
 
-Lemma normalize_breaks_fixed : exists upd stop normf (s s' : st nat unit),
-  run upd stop normf true Parafac 2 [0] 1 true s = Ok s' /\ In 0 (eff_fixed Parafac 2 [0]) /\
+(* the line-search candidate last + (cur - last) * jump is `last` when cur = last: any commutative ring, any shape *)
+Section LineSearchRing.
+  Variable F : Type.
+  Variables (rO rI : F) (radd rmul rsub : F -> F -> F) (ropp : F -> F).
+  Hypothesis Rth : ring_theory rO rI radd rmul rsub ropp (@eq F).
+  Add Ring Frl : Rth.
+  Lemma ls_entry_same j x : ls_entry radd rsub rmul j x x = x.
+  Proof. unfold ls_entry. ring. Qed.
+  Lemma ls_vec_same j : forall v, ls_vec radd rsub rmul j v v = v.
+  Proof. unfold ls_vec. induction v as [|x v IH]; simpl; [reflexivity|]. now rewrite ls_entry_same, IH. Qed.
+  Theorem ls_mat_same j : forall A, ls_mat radd rsub rmul j A A = A.
+  Proof. unfold ls_mat. induction A as [|r A IH]; simpl; [reflexivity|]. now rewrite (ls_vec_same j r), IH. Qed.
+End LineSearchRing.
+
+Theorem fixed_modes_linesearch : forall (F : Type) (rO rI : F) (radd rmul rsub : F -> F -> F) (ropp : F -> F),
+  ring_theory rO rI radd rmul rsub ropp (@eq F) ->
+  forall (W X : Type) upd stop normf pre post ls_on ls_accept (jump : nat -> st (list (list F)) W X -> F) lsw lsx
+  a n fixed budget tol (s s' : st (list (list F)) W X) d m,
+  run upd stop normf false pre (fun _ => false) post ls_on ls_accept (fun it s => ls_mat radd rsub rmul (jump it s)) lsw lsx
+      a n fixed budget tol s = Ok s' ->
+  In m (eff_fixed a n fixed) -> nth m (facs s') d = nth m (facs s) d.
+Proof.
+  intros F rO rI radd rmul rsub ropp Rth W X upd stop normf pre post ls_on ls_accept jump lsw lsx a n fixed budget tol s s' d m.
+  apply run_fixed. intros _ it s0 x. exact (ls_mat_same F rO rI radd rmul rsub ropp Rth (jump it s0) x).
+Qed.
+
+(* the orthogonalise hook (an arbitrary rewrite of every factor before the sweep) breaks fixed modes *)
+Lemma orthogonalise_breaks_fixed : exists upd stop normf pre pre_on post ls_on ls_accept lsf lsw lsx (s s' : st nat unit unit),
+  run upd stop normf false pre pre_on post ls_on ls_accept lsf lsw lsx Parafac 2 [0] 1 true s = Ok s' /\
+  In 0 (eff_fixed Parafac 2 [0]) /\ (forall it s x, lsf it s x x = x) /\ nth 0 (facs s') 0 <> nth 0 (facs s) 0.
+Proof.
+  exists (fun _ _ _ => (5, tt)), (fun _ _ => false), (fun s => s), (fun _ s => mkst (wts s) (map S (facs s)) (aux s)), (fun _ => true),
+         (fun _ _ => tt), (fun _ => false), (fun _ _ _ => false), (fun _ _ l c => c), (fun _ _ l c => c), (fun _ _ _ => tt),
+         (mkst tt [0; 0] tt), (mkst tt [1; 5] tt).
+  split; [reflexivity|]. split; [now left|]. split; [reflexivity | discriminate].
+Qed.
+
+Lemma normalize_breaks_fixed : exists upd stop normf (s s' : st nat unit unit),
+  run upd stop normf true (fun _ s => s) (fun _ => false) (fun _ _ => tt) (fun _ => false) (fun _ _ _ => false)
+      (fun _ _ l c => c) (fun _ _ l c => c) (fun _ _ _ => tt) Parafac 2 [0] 1 true s = Ok s' /\ In 0 (eff_fixed Parafac 2 [0]) /\
   nth 0 (facs s') 0 <> nth 0 (facs s) 0.
 Proof.
-  exists (fun _ _ _ => 5), (fun _ _ => false), (fun s => mkst (wts s) (map S (facs s))), (mkst tt [0; 0]), (mkst tt [1; 6]).
+  exists (fun _ _ _ => (5, tt)), (fun _ _ => false), (fun s => mkst (wts s) (map S (facs s)) (aux s)), (mkst tt [0; 0] tt), (mkst tt [1; 6] tt).
   split; [reflexivity|]. split; [now left | discriminate].
 Qed.
 
